@@ -798,5 +798,11 @@ V('C10', 'widths-one-row-only', 'silent', '', 'constraint widths kept as one bro
   ('src/pyhf/constraints.py', '                sigmas = default_backend.reshape(_normal_sigmas, (1, -1))\n                self._sigmas = default_backend.tile(sigmas, (self.batch_size, 1))\n', '                self._sigmas = default_backend.reshape(_normal_sigmas, (1, -1))\n'))
 V('C10', 'jax-sample-from-scale-only', 'silent', '', "jax sampler sized from the widths' shape (widths carry every batch row)",
   ('src/pyhf/tensor/jax_backend.py', '            osp_stats.norm(self.loc, self.scale).rvs(\n                size=sample_shape + self.loc.shape\n            ),\n', '            osp_stats.norm(self.loc, self.scale).rvs(\n                size=sample_shape + self.scale.shape\n            ),\n'))
+V('C10', 'numpy-reshape-order-A', 'fire', 'C10.R8', 'numpy reshape reads column-major inputs column-major',
+  ('src/pyhf/tensor/numpy_backend.py', '        return np.reshape(tensor, newshape)\n', '        return np.reshape(tensor, newshape, order="A")\n'))
+V('C10', 'numpy-reshape-order-C', 'silent', '', 'numpy reshape with the default order spelled out',
+  ('src/pyhf/tensor/numpy_backend.py', '        return np.reshape(tensor, newshape)\n', '        return np.reshape(tensor, newshape, order="C")\n'))
+V('C01', 'numpy-reshape-order-F', 'fire', 'C01.R15', 'numpy reshape in column-major order',
+  ('src/pyhf/tensor/numpy_backend.py', '        return np.reshape(tensor, newshape)\n', '        return np.reshape(tensor, newshape, order="F")\n'))
 V("C13", "code4-exponent-mask-strict", "fire", "C13.R3", "code 4 takes exponent 1 (a constant) exactly at |alpha| = alpha0",
   ("src/pyhf/interpolators/code4.py", "            exponents >= self.__alpha0, exponents, self.ones", "            exponents > self.__alpha0, exponents, self.ones"))
